@@ -317,7 +317,7 @@ pub fn jump_case(kind: usize, source: usize, target: usize, order: usize) -> Jum
     let guard = |lines: &mut Vec<String>, label: &str, indent: &str| {
         lines.push(format!("{}:", label));
         lines.push(format!("{}ZG% = ZG% + 1", indent));
-        lines.push(format!("{}IF ZG% > 3 THEN END", indent));
+        lines.push(format!("{}IF ZG% > 12 THEN END", indent));
         lines.push(format!("{}PRINT \"{}\"", indent, label));
     };
     let mut lines: Vec<String> = vec!["DIM SHARED ZG%".into(), "PRINT \"m1\"".into()];
